@@ -20,6 +20,7 @@ func init() {
 			"(unique-name) registration is refused, before the insert, when the name is found in staging or in services; " +
 			"(transitions) services[id] is filled only from the staging entry of the same id (which is deleted) or by a guarded update that keeps name and id; lookup/list functions never read staging; " +
 			"(events) service-added / service-removed are emitted exactly once on the success path of exactly those transitions, with the id and name of the entry, and nowhere else. " +
+			"Events are emitted in the critical section of the state change they announce; no method re-acquires a mutex of its object that its caller holds; the object's mails are handled one at a time. " +
 			"Not decided: linearizability of concurrent histories and sequential conformance to a reference model (runtime properties).",
 		Assumptions: []string{"sync.Mutex semantics", "uint32 id wrap-around after 2^32 registrations is ignored", "the generated stub calls these methods with decoded arguments (C03/C12 cover the stub)"},
 		Run:         runC15,
